@@ -68,9 +68,13 @@ def c02_labels(run, v1, ed):
                 pr.append(("C02/retarget_to_proxy-makes-labels-external", "%s at %s" % (name, got)))
             continue
         want = ed.label_pos(p, kinds0[name], bidx)
-        if got == "proxy" and _slides_into_proxy_deleted(run, bidx):
+        if _slides_into_proxy_deleted(run, bidx):
             # the label's own block was deleted (labels slide to the next position) and the block at that next position was
-            # deleted with retarget_to_proxy (labels there become external): the statement allows either reading
+            # deleted with retarget_to_proxy (labels there become external).  Modifications take effect in address order (C09: a batch
+            # equals one-at-a-time application in address order), so the label first slides onto that block and then shares the fate
+            # of its labels: it becomes a reference to the proxy.  (Until wave 9 either outcome was accepted; that hid seed C02-8.)
+            if got != "proxy":
+                pr.append(("C02/retarget_to_proxy-makes-labels-external", "%s slid onto a block that was deleted with retarget_to_proxy but is at %s" % (name, got)))
             continue
         if got != want:
             pr.append(("C02/label-designates-the-same-listing-position", "%s (%s label of block %d, was %d) at %s expected %d" % (name, kinds0[name], bidx, p, got, want)))
@@ -193,7 +197,7 @@ def c03_cfg(run, v1, ed):
 
         def ft_ok():
             fts = [e for e in out if e.label.type == gtirb.EdgeType.Fallthrough]
-            if (b.address + b.size - BASE) in proxy_ends:
+            if (b.address + b.size - V.base_of(m)) in proxy_ends:
                 # doc/Deletion.md: with retarget_to_proxy the incoming fallthrough is redirected to the new proxy
                 return len(fts) == 1 and (isinstance(fts[0].target, gtirb.ProxyBlock) or fts[0].target is nxt)
             if nxt is not None:
